@@ -92,7 +92,7 @@ class Pipeline:
 
     def src_kind(self):
         return {"slice": "ref", "vec": "val", "range": "idx", "iter": "ref", "iterf": "ref",
-                "deque": "ref", "iterv": "val", "itervf": "val"}[self.src]
+                "deque": "ref", "iterv": "val", "itervf": "val", "sched": "val", "schedx": "val"}[self.src]
 
     def final_kind(self):
         k = self.src_kind()
@@ -118,6 +118,9 @@ class Pipeline:
             "iterv": "a.iter().copied().par()",
             "itervf": "a.iter().copied().filter(|_| true).par()",
             "deque": "dq.par()",
+            # iterator-backed sources under the schedule model: unknown length / exact length
+            "sched": "SchedIter::new(a, false).par()",
+            "schedx": "SchedIter::new(a, true).par()",
         }[self.src]
 
     def seq_src(self):
@@ -130,10 +133,12 @@ class Pipeline:
             "iterv": "a.iter().copied()",
             "itervf": "a.iter().copied()",
             "deque": "a.iter()",
+            "sched": "a.iter().copied()",
+            "schedx": "a.iter().copied()",
         }[self.src]
 
     def known_len(self):
-        return self.src in ("slice", "vec", "range", "iter", "iterv", "deque")
+        return self.src in ("slice", "vec", "range", "iter", "iterv", "deque", "schedx")
 
     # ---- closures
     def probe(self, kind, filter_arg=False):
@@ -232,7 +237,7 @@ class TaggedPipeline:
         return self.ty
 
     def src_ref(self):
-        return self.src in ("tslice", "titer", "titerf")
+        return self.src in ("tslice", "titer", "titerf")  # tsched / tschedx yield pairs by value
 
     def decl(self):
         """input declaration: tags concrete, values symbolic"""
@@ -244,10 +249,12 @@ class TaggedPipeline:
     def par_src(self):
         return {"tslice": "(&a[..]).into_par()", "tvec": "a.to_vec().into_par()", "titer": "a.iter().par()",
                 "titerf": "a.iter().filter(|_| true).par()",
+                "tsched": "SchedIter::new(a, false).par()", "tschedx": "SchedIter::new(a, true).par()",
                 "tcounting": "a.iter().map(|x: &(usize, u8)| { bump(4, x.0 as u8); *x }).par()"}[self.src]
 
     def seq_src(self):
         return {"tslice": "a.iter()", "tvec": "a.to_vec().into_iter()", "titer": "a.iter()", "titerf": "a.iter()",
+                "tsched": "a.iter().copied()", "tschedx": "a.iter().copied()",
                 "tcounting": "a.iter().map(|x: &(usize, u8)| { bump(4, x.0 as u8); *x })"}[self.src]
 
     def table(self, vals, ty="bool"):
